@@ -1,0 +1,17 @@
+//go:build !verif
+
+package net
+
+import "net"
+
+// verifUDPConn is the simulated socket seam used only with the build tag "verif".
+type verifUDPConn interface {
+	LocalAddr() net.Addr
+	RemoteAddr() net.Addr
+	Close() error
+	NetConn() net.Conn
+	WriteTo(b []byte, cm *ControlMessage, dst net.Addr) (int, error)
+	WriteToAddr(iface *net.Interface, src *net.IP, multicastHopLimit int, raddr *net.UDPAddr, buffer []byte) error
+}
+
+func verifUDP(*UDPConn) verifUDPConn { return nil }
